@@ -188,5 +188,220 @@ theorem resize_bits (a : BV) (m : Nat) (b : Bool) (ha : a.WF) :
     simp only [bits_length, bits_getElem, List.getElem_replicate, hi, decide_true, Bool.true_and]
     split <;> rfl
 
+-- ---- item 5 : `truncate`, `signExtend` -----------------------------------------------------------------
+theorem truncate_bits (a : BV) (m : Nat) : (a.truncate m).bits = a.bits.take m := by
+  unfold truncate
+  split
+  · rename_i h
+    unfold resize
+    rw [if_pos (by omega)]
+    exact lv_mod_bits a m (by omega)
+  · rename_i h
+    rw [List.take_of_length_le (by rw [bits_length]; omega)]
+
+theorem truncate_wf (a : BV) (m : Nat) (ha : a.WF) : (a.truncate m).WF := by
+  unfold truncate
+  split
+  · exact resize_wf a m false ha
+  · exact ha
+
+theorem truncate_len (a : BV) (m : Nat) : (a.truncate m).len = min m a.len := by
+  unfold truncate
+  split
+  · rw [resize_len]; omega
+  · omega
+
+/-- the sign bit (`false` for the empty vector) is the last element of the list -/
+theorem lv_sign_eq (a : BV) : (decide (a.len > 0) && a.bit (a.len - 1)) = a.bits.getLast?.getD false := by
+  rw [← last_eq_getLast?]
+  unfold last
+  by_cases h : a.len = 0
+  · simp [h]
+  · have : a.len > 0 := by omega
+    simp [h, this]
+
+theorem signExtend_bits (a : BV) (m : Nat) (ha : a.WF) :
+    (a.signExtend m).bits = a.bits ++ List.replicate (m - a.len) (a.bits.getLast?.getD false) := by
+  unfold signExtend
+  split
+  · rename_i h
+    rw [resize_bits a m _ ha, lv_sign_eq]
+    apply List.take_of_length_le
+    rw [List.length_append, List.length_replicate, bits_length]; omega
+  · rename_i h
+    have : m - a.len = 0 := by omega
+    rw [this, List.replicate_zero, List.append_nil]
+
+theorem signExtend_wf (a : BV) (m : Nat) (ha : a.WF) : (a.signExtend m).WF := by
+  unfold signExtend
+  split
+  · exact resize_wf a m _ ha
+  · exact ha
+
+theorem signExtend_len (a : BV) (m : Nat) : (a.signExtend m).len = max m a.len := by
+  unfold signExtend
+  split
+  · rw [resize_len]; omega
+  · omega
+
+-- ---- item 6 : `prepend` --------------------------------------------------------------------------------
+theorem lv_prepend_eq_append (a x : BV) : a.prepend x = x.append a := by
+  unfold prepend append
+  rw [Nat.add_comm a.len]
+
+theorem prepend_bits (a x : BV) (hx : x.WF) : (a.prepend x).bits = x.bits ++ a.bits := by
+  rw [lv_prepend_eq_append, bits_append _ _ hx]
+
+theorem prepend_wf (a x : BV) (ha : a.WF) (hx : x.WF) : (a.prepend x).WF := by
+  rw [lv_prepend_eq_append]; exact append_wf x a hx ha
+
+-- ---- item 7 : `insert` ---------------------------------------------------------------------------------
+theorem lv_shr_lt (a : BV) (i : Nat) (ha : a.WF) (hi : i ≤ a.len) : a.val >>> i < 2 ^ (a.len - i) := by
+  rw [Nat.shiftRight_eq_div_pow, Nat.div_lt_iff_lt_mul (Nat.two_pow_pos _), ← Nat.pow_add]
+  have : a.len - i + i = a.len := by omega
+  rw [this]; exact ha
+
+/-- `insert` is: split at `i`, then append the low part, `x`, and the high part -/
+theorem lv_insert_eq (a : BV) (i : Nat) (x : BV) (ha : a.WF) (hi : i ≤ a.len) :
+    a.insert i x = ((a.splitOff i).1.append x).append (a.splitOff i).2 := by
+  unfold insert splitOff append copyRange
+  simp only
+  rw [Nat.mod_eq_of_lt (lv_shr_lt a i ha hi)]
+  congr 1
+  omega
+
+theorem lv_copyRange_wf (a : BV) (s e : Nat) : (a.copyRange s e).WF :=
+  Nat.mod_lt _ (Nat.two_pow_pos _)
+
+theorem insert_wf (a : BV) (i : Nat) (x : BV) (ha : a.WF) (hx : x.WF) (hi : i ≤ a.len) : (a.insert i x).WF := by
+  rw [lv_insert_eq a i x ha hi]
+  exact append_wf _ _ (append_wf _ _ (splitOff_fst_wf a i) hx) (lv_copyRange_wf a i a.len)
+
+theorem insert_bits (a : BV) (i : Nat) (x : BV) (ha : a.WF) (hx : x.WF) (hi : i ≤ a.len) :
+    (a.insert i x).bits = a.bits.take i ++ x.bits ++ a.bits.drop i := by
+  rw [lv_insert_eq a i x ha hi, bits_append _ _ (append_wf _ _ (splitOff_fst_wf a i) hx),
+    bits_append _ _ (splitOff_fst_wf a i)]
+  have h1 : (a.splitOff i).1.bits = a.bits.take i := lv_mod_bits a i hi
+  have h2 : (a.splitOff i).2.bits = a.bits.drop i := by
+    show (a.copyRange i a.len).bits = _
+    rw [copyRange_bits_list a i a.len (Nat.le_refl _)]
+    apply List.take_of_length_le
+    rw [List.length_drop, bits_length]; omega
+  rw [h1, h2]
+
+theorem insert_len (a : BV) (i : Nat) (x : BV) : (a.insert i x).len = a.len + x.len := rfl
+
+-- ---- item 8 : `extend`, `ofBits` -----------------------------------------------------------------------
+theorem lv_extend_both (bs : List Bool) : ∀ (a : BV), a.WF → (a.extend bs).bits = a.bits ++ bs ∧ (a.extend bs).WF := by
+  induction bs with
+  | nil => intro a ha; exact ⟨by simp [extend], ha⟩
+  | cons b bs ih =>
+    intro a ha
+    have h := ih (a.push b) (push_wf a b ha)
+    have e : a.extend (b :: bs) = (a.push b).extend bs := rfl
+    rw [e]
+    refine ⟨?_, h.2⟩
+    rw [h.1, push_bits a b ha, List.append_assoc]
+    rfl
+
+theorem extend_bits (a : BV) (bs : List Bool) (ha : a.WF) : (a.extend bs).bits = a.bits ++ bs :=
+  (lv_extend_both bs a ha).1
+
+theorem extend_wf (a : BV) (bs : List Bool) (ha : a.WF) : (a.extend bs).WF :=
+  (lv_extend_both bs a ha).2
+
+theorem lv_ofBits_cons (b : Bool) (bs : List Bool) :
+    ofBits (b :: bs) = (BV.mk 1 b.toNat).append (ofBits bs) := by
+  show BV.mk ((ofBits bs).len + 1) (b.toNat + 2 * (ofBits bs).val) = _
+  unfold append
+  simp only
+  rw [Nat.add_comm 1, Nat.pow_one, Nat.mul_comm]
+
+theorem lv_ofBits_both (bs : List Bool) : (ofBits bs).bits = bs ∧ (ofBits bs).WF := by
+  induction bs with
+  | nil => exact ⟨rfl, by decide⟩
+  | cons b bs ih =>
+    rw [lv_ofBits_cons]
+    refine ⟨?_, append_wf _ _ (lv_single_wf b) ih.2⟩
+    rw [bits_append _ _ (lv_single_wf b), lv_bits_single, ih.1]
+    rfl
+
+theorem ofBits_bits (bs : List Bool) : (ofBits bs).bits = bs := (lv_ofBits_both bs).1
+
+theorem ofBits_wf (bs : List Bool) : (ofBits bs).WF := (lv_ofBits_both bs).2
+
+theorem ofBits_len (bs : List Bool) : (ofBits bs).len = bs.length := by
+  rw [← bits_length, ofBits_bits]
+
+theorem lv_zeros_wf (n : Nat) : (zeros n).WF := Nat.two_pow_pos n
+
+theorem extend_zeros_eq_ofBits (bs : List Bool) : extend (zeros 0) bs = ofBits bs := by
+  apply eq_of_bits _ _ (extend_wf _ bs (lv_zeros_wf 0)) (ofBits_wf bs)
+  rw [extend_bits _ bs (lv_zeros_wf 0), ofBits_bits]
+  rfl
+
+/-- `ofBits` inverts `bits` on well-formed vectors -/
+theorem ofBits_bits_self (a : BV) (ha : a.WF) : ofBits a.bits = a :=
+  eq_of_bits _ _ (ofBits_wf _) ha (ofBits_bits _)
+
+-- ---- item 10 : rotations -------------------------------------------------------------------------------
+theorem lv_bits_nil (a : BV) (h : a.len = 0) : a.bits = [] :=
+  List.eq_nil_of_length_eq_zero (by rw [bits_length]; exact h)
+
+/-- `rotl k` moves the top `k` bits to the bottom -/
+theorem rotl_bits (a : BV) (k : Nat) (ha : a.WF) (hk : k ≤ a.len) :
+    (a.rotl k).bits = a.bits.drop (a.len - k) ++ a.bits.take (a.len - k) := by
+  by_cases hl : a.len = 0
+  · have e : a.rotl k = a := by unfold rotl; rw [if_pos hl]
+    rw [e, lv_bits_nil a hl]; simp
+  · apply lv_bits_eq
+    · rw [List.length_append, List.length_drop, List.length_take, bits_length, rotl_len]; omega
+    · intro i h
+      have hi : i < a.len := by
+        rw [List.length_append, List.length_drop, List.length_take, bits_length] at h; omega
+      rw [rotl_bit a k i ha hk (by omega), List.getElem_append]
+      simp only [List.length_drop, bits_length, List.getElem_drop, List.getElem_take, bits_getElem]
+      have e : a.len - (a.len - k) = k := by omega
+      simp only [e, hi, decide_true, Bool.true_and]
+      split <;> rfl
+
+/-- `rotr k` moves the bottom `k` bits to the top -/
+theorem rotr_bits (a : BV) (k : Nat) (ha : a.WF) (hk : k ≤ a.len) :
+    (a.rotr k).bits = a.bits.drop k ++ a.bits.take k := by
+  by_cases hl : a.len = 0
+  · have e : a.rotr k = a := by unfold rotr; rw [if_pos hl]
+    rw [e, lv_bits_nil a hl]; simp
+  · apply lv_bits_eq
+    · rw [List.length_append, List.length_drop, List.length_take, bits_length, rotr_len]; omega
+    · intro i h
+      have hi : i < a.len := by
+        rw [List.length_append, List.length_drop, List.length_take, bits_length] at h; omega
+      rw [rotr_bit a k i ha hk (by omega), List.getElem_append]
+      simp only [List.length_drop, bits_length, List.getElem_drop, List.getElem_take, bits_getElem]
+      simp only [hi, decide_true, Bool.true_and, Nat.add_comm k i]
+      split <;> rfl
+
+theorem lv_count_rot (l : List Bool) (n : Nat) (b : Bool) : (l.drop n ++ l.take n).count b = l.count b := by
+  conv => rhs; rw [← List.take_append_drop n l]
+  rw [List.count_append, List.count_append, Nat.add_comm]
+
+/-- rotation keeps the number of `true` (and of `false`) bits -/
+theorem rotl_count (a : BV) (k : Nat) (ha : a.WF) (hk : k ≤ a.len) (b : Bool) :
+    (a.rotl k).bits.count b = a.bits.count b := by
+  rw [rotl_bits a k ha hk, lv_count_rot]
+
+theorem rotr_count (a : BV) (k : Nat) (ha : a.WF) (hk : k ≤ a.len) (b : Bool) :
+    (a.rotr k).bits.count b = a.bits.count b := by
+  rw [rotr_bits a k ha hk, lv_count_rot]
+
+/-- rotation permutes the bits -/
+theorem rotl_perm (a : BV) (k : Nat) (ha : a.WF) (hk : k ≤ a.len) : (a.rotl k).bits.Perm a.bits := by
+  rw [rotl_bits a k ha hk]
+  exact List.perm_append_comm.trans (List.take_append_drop _ _ ▸ List.Perm.refl _)
+
+theorem rotr_perm (a : BV) (k : Nat) (ha : a.WF) (hk : k ≤ a.len) : (a.rotr k).bits.Perm a.bits := by
+  rw [rotr_bits a k ha hk]
+  exact List.perm_append_comm.trans (List.take_append_drop _ _ ▸ List.Perm.refl _)
+
 end BV
 end Bva
